@@ -11,6 +11,7 @@ import (
 	"testing"
 
 	"github.com/anthdm/hollywood/internal/vgen"
+	"github.com/anthdm/hollywood/internal/vshim/vsched"
 )
 
 // runRingOps executes `ops` (protocol syntax) on a fresh ring of `size`.
@@ -157,5 +158,251 @@ func TestVerifRing(t *testing.T) {
 	for i := 0; i < n; i++ {
 		size, ops := genRingCase(r.Fork())
 		emit(fmt.Sprintf("g%d", i), size, ops)
+	}
+}
+
+// ---------------------------------------------------------------------------------------------
+// stream "ringsched" (C14, concurrency): several goroutines use one RingBuffer under the
+// deterministic scheduler (ringbuffer.go built with the yielding shims). Every interleaving is a
+// schedule the Lean model replays with each operation as ONE atomic step.
+// ---------------------------------------------------------------------------------------------
+
+type vRStep struct {
+	tid     int
+	enabled []int
+}
+
+func vRunRingSched(size int, progs [][]string, choose func(step int, en []int, last int) int) (trace []vRStep, log string) {
+	c := vsched.New()
+	c.Install()
+	defer vsched.Uninstall()
+	rb := New[int](int64(size))
+	results := make([][]string, len(progs))
+	for ti, prog := range progs {
+		ti, prog := ti, prog
+		c.Go(func() {
+			for _, op := range prog {
+				func() {
+					defer func() {
+						if v := recover(); v != nil {
+							results[ti] = append(results[ti], "PANIC")
+						}
+					}()
+					results[ti] = append(results[ti], runRingOp(rb, op))
+				}()
+			}
+		})
+	}
+	c.WaitSettled()
+	var sb strings.Builder
+	last := -1
+	for step := 0; step < 100000; step++ {
+		en := c.Enabled()
+		if len(en) == 0 {
+			break
+		}
+		tid := choose(step, en, last)
+		op, _ := c.Step(tid)
+		last = tid
+		trace = append(trace, vRStep{tid, en})
+		fmt.Fprintf(&sb, "t%d:%s;", tid, op)
+	}
+	rs := make([]string, len(results))
+	for i, r := range results {
+		rs[i] = strings.Join(r, ",")
+	}
+	// drain what is left, sequentially
+	var rest []string
+	for {
+		v, ok := rb.Pop()
+		if !ok {
+			break
+		}
+		rest = append(rest, strconv.Itoa(v))
+	}
+	fmt.Fprintf(&sb, "end:%s:rest=%s", strings.Join(rs, "|"), strings.Join(rest, "."))
+	return trace, sb.String()
+}
+
+func runRingOp(rb *RingBuffer[int], op string) string {
+	switch {
+	case op == "o":
+		v, ok := rb.Pop()
+		if ok {
+			return "i" + strconv.Itoa(v)
+		}
+		return "i!"
+	case op == "l":
+		return "l" + strconv.FormatInt(rb.Len(), 10)
+	case op[0] == 'u':
+		x, _ := strconv.Atoi(op[1:])
+		rb.Push(x)
+		return "-"
+	case op[0] == 'n':
+		n, _ := strconv.Atoi(op[1:])
+		vs, ok := rb.PopN(int64(n))
+		if !ok {
+			return "s!"
+		}
+		ss := make([]string, len(vs))
+		for i, v := range vs {
+			ss[i] = strconv.Itoa(v)
+		}
+		return "s" + strings.Join(ss, ".")
+	}
+	return "?"
+}
+
+func vRContains(xs []int, x int) bool {
+	for _, y := range xs {
+		if y == x {
+			return true
+		}
+	}
+	return false
+}
+
+func vRReplay(sched []int) func(int, []int, int) int {
+	return func(step int, en []int, last int) int {
+		if step < len(sched) && vRContains(en, sched[step]) {
+			return sched[step]
+		}
+		if vRContains(en, last) {
+			return last
+		}
+		return en[0]
+	}
+}
+
+func TestVerifRingSched(t *testing.T) {
+	{ // shim active?
+		c := vsched.New()
+		c.Install()
+		rb := New[int](1)
+		c.Go(func() { rb.Push(1) })
+		c.WaitSettled()
+		n := len(c.Enabled())
+		for len(c.Enabled()) > 0 {
+			c.Step(c.Enabled()[0])
+		}
+		vsched.Uninstall()
+		if n != 1 {
+			t.Fatal("scheduler shim not active for ringbuffer.go")
+		}
+	}
+	w, err := vgen.NewWriter("ringsched")
+	if err != nil {
+		t.Fatal(err)
+	}
+	defer w.Close()
+	show := func(progs [][]string) string {
+		ss := make([]string, len(progs))
+		for i, p := range progs {
+			ss[i] = strings.Join(p, ".")
+		}
+		return strings.Join(ss, "|")
+	}
+	emit := func(id string, size int, progs [][]string, tr []vRStep, log string) {
+		xs := make([]string, len(tr))
+		for i, s := range tr {
+			xs[i] = strconv.Itoa(s.tid)
+		}
+		w.Case(id, fmt.Sprintf("size=%d progs=%s sched=%s", size, show(progs), strings.Join(xs, ",")), log)
+	}
+	parse := func(in string) (int, [][]string, []int) {
+		var progs [][]string
+		p, _ := vgen.KV(in, "progs")
+		for _, x := range strings.Split(p, "|") {
+			if x == "" {
+				progs = append(progs, nil)
+			} else {
+				progs = append(progs, strings.Split(x, "."))
+			}
+		}
+		var sched []int
+		if s, ok := vgen.KV(in, "sched"); ok && s != "" {
+			for _, y := range strings.Split(s, ",") {
+				v, _ := strconv.Atoi(y)
+				sched = append(sched, v)
+			}
+		}
+		return vgen.KVInt(in, "size", 1), progs, sched
+	}
+	if in, ok := vgen.ReplayInput(); ok {
+		size, progs, sched := parse(in)
+		tr, log := vRunRingSched(size, progs, vRReplay(sched))
+		emit("replay", size, progs, tr, log)
+		return
+	}
+	for i, in := range vgen.CorpusInputs() {
+		size, progs, sched := parse(in)
+		tr, log := vRunRingSched(size, progs, vRReplay(sched))
+		emit(fmt.Sprintf("corpus%d", i), size, progs, tr, log)
+	}
+	type scope struct {
+		size  int
+		progs [][]string
+	}
+	scopes := []scope{
+		{1, [][]string{{"u1", "u2"}, {"n4"}}},
+		{1, [][]string{{"u1", "u2", "u3"}, {"n2", "n2"}}},
+		{2, [][]string{{"u1", "u2"}, {"u3", "o"}, {"n4", "l"}}},
+		{1, [][]string{{"u1", "o", "u2"}, {"u3", "n2"}}},
+		{2, [][]string{{"u1", "u2", "u3"}, {"o", "o"}, {"l", "n1"}}},
+	}
+	budget := vgen.Scale(3000, 60000)
+	for si, sc := range scopes {
+		n := 0
+		var explore func(prefix []int)
+		explore = func(prefix []int) {
+			if n >= budget {
+				return
+			}
+			tr, log := vRunRingSched(sc.size, sc.progs, vRReplay(prefix))
+			emit(fmt.Sprintf("dfs%d_%d", si, n), sc.size, sc.progs, tr, log)
+			n++
+			for i := len(prefix); i < len(tr); i++ {
+				for _, alt := range tr[i].enabled {
+					if alt == tr[i].tid {
+						continue
+					}
+					np := make([]int, 0, i+1)
+					for _, s := range tr[:i] {
+						np = append(np, s.tid)
+					}
+					explore(append(np, alt))
+				}
+			}
+		}
+		explore(nil)
+		t.Logf("ringsched scope %d: %d interleavings (exhausted=%v)", si, n, n < budget)
+	}
+	r := vgen.NewRng(vgen.Seed())
+	nr := vgen.Scale(3000, 80000)
+	for i := 0; i < nr; i++ {
+		rr := r.Fork()
+		size := vgen.Pick(rr, []int{1, 1, 2, 3})
+		nt := 2 + rr.Intn(2)
+		next := 1
+		var progs [][]string
+		for ti := 0; ti < nt; ti++ {
+			var p []string
+			for j := 0; j < 1+rr.Intn(4); j++ {
+				switch c := rr.Intn(10); {
+				case c < 5:
+					p = append(p, "u"+strconv.Itoa(next))
+					next++
+				case c < 7:
+					p = append(p, "n"+strconv.Itoa(1+rr.Intn(4)))
+				case c < 9:
+					p = append(p, "o")
+				default:
+					p = append(p, "l")
+				}
+			}
+			progs = append(progs, p)
+		}
+		tr, log := vRunRingSched(size, progs, func(step int, en []int, last int) int { return en[rr.Intn(len(en))] })
+		emit(fmt.Sprintf("rnd%d", i), size, progs, tr, log)
 	}
 }
